@@ -642,6 +642,11 @@ def atoms_full(marker=""):
         ("tpl", (("var", leaf(V("x"))),)),
         ("tpl", (("text", "p "), ("var", leaf(V("x.0"))), ("text", " q],"))),
         ("tpl", (("var", leaf(V("d"), ("default", S("z w")))),)),
+        # a string that is exactly one `{{ }}` whose lookup fails: stock semantics (string_if_invalid, then the filters)
+        ("tpl", (("var", leaf(V("missing"))),)),
+        ("tpl", (("var", leaf(V("missing"), ("upper", None))),)),
+        ("tpl", (("var", leaf(V("missing"), ("default_if_none", S("anon")))),)),
+        ("tpl", (("var", leaf(V("o.nokey"), ("add", S("!")))),)),
         ("tpl", (("tag", "{% lorem 1 w %}", "lorem"),)),
         ("tpl", (("tag", "{% lorem 2 w %}", "lorem ipsum"), ("text", "!"))),
         # a nested tag whose compile function needs the enclosing template's origin (loader tags)
